@@ -3,9 +3,13 @@ import PdshVerif.Exec.Format
 import PdshVerif.Exec.EndToEnd
 import PdshVerif.Exec.Ssh
 import PdshVerif.Exec.Spec
+import PdshVerif.Exec.XrcmdSpec
 import PdshVerif.Opt.Rcmd
 import PdshVerif.Opt.RcmdSpec
+import PdshVerif.Opt.RcmdUser
 import PdshVerif.Gen.Modopt
+import PdshVerif.Opt.Exclude
+import PdshVerif.Hostlist.Probed
 import Driver.Util
 
 /-!
@@ -21,7 +25,10 @@ import Driver.Util
      reg  loaded=L env=S|~ R=S|~ l=S|~ luser=S T=L W=TEXT/L/L ...   (S hex, L = hex+hex+..., W = word
           text / first-level names / final names; RCMD_RANK_LIST comes from Gen)
                                          -> fatal | ok TYPE|HOST|USER|RANK ...   (TYPE `~` = no module)
-  `pdshmodel rcmd spec`  the same lines answered by the specification
+     xr ERRCH LUSER RUSER CMD BUSY CONNS SLEEPS POLL ACC REPLY  (xrcmd's connection set-up in a scripted
+          world, see harness/xrcmd_harness.c)  -> ok|fail EVENT*
+  `pdshmodel rcmd spec`  the same lines answered by the specification; additionally
+     xrobs ERRCH LUSER RUSER CMD ok|fail EVENT*   -> ok | viol   (Exec/XrcmdSpec.lean `meets`)
 -/
 namespace Driver.RcmdDrv
 open PdshVerif PdshVerif.Exec
@@ -99,9 +106,65 @@ def regModel (re : Bool) (toks : List String) : String :=
   match parseReg toks emptyCase with
   | none => "bad-op"
   | some c =>
-    match (if re then Opt.Rcmd.runRe c.cfg c.words c.targets else Opt.Rcmd.run c.cfg c.words c.targets) with
+    match Opt.Rcmd.runChecked (some Gen.MO_LOGIN_NAME_MAX) re c.cfg c.words c.targets with
     | .fatal => "fatal"
     | .lines ls => showLines ls
+
+/-! the same run computed FROM THE COMMAND LINE: the final target list is what C02's model of opt.c + hostlist.c
+    (`Opt.Exclude.cliFinal`: every -w / -x optarg as typed, split at commas, annotations stripped by
+    get_host_rcmd_type, pushed, exclusions applied, re-expanded) goes on with, and the names a word registers are
+    what the same model yields for that word alone -- no host expansion comes from the check any more.
+      regcli loaded=L env=S|~ R=S|~ l=S|~ luser=S E=w:OPTARG E=x:OPTARG ...   (E in command-line order) -/
+structure CliCase where
+  cfg : Opt.Rcmd.Cfg
+  evs : List Opt.Exclude.Ev
+
+def parseCli : List String → CliCase → Option CliCase
+  | [], c => some c
+  | tok :: rest, c =>
+    match tok.splitOn "=" with
+    | [k, v] =>
+      let c' : Option CliCase :=
+        if k = "loaded" then (parseList v).map fun l => { c with cfg := { c.cfg with loaded := l } }
+        else if k = "env" then (parseOpt v).map fun o => { c with cfg := { c.cfg with envType := o } }
+        else if k = "R" then (parseOpt v).map fun o => { c with cfg := { c.cfg with optR := o } }
+        else if k = "l" then (parseOpt v).map fun o => { c with cfg := { c.cfg with optL := o } }
+        else if k = "luser" then (Hex.decodeToChars v).map fun u => { c with cfg := { c.cfg with luser := u } }
+        else if k = "E" then
+          match v.splitOn ":" with
+          | ["w", a] => (Hex.decodeToChars a).map fun a => { c with evs := c.evs ++ [.w a] }
+          | ["x", a] => (Hex.decodeToChars a).map fun a => { c with evs := c.evs ++ [.x a] }
+          | _ => none
+        else none
+      match c' with
+      | some c' => parseCli rest c'
+      | none => none
+    | _ => none
+
+def regCli (toks : List String) : String :=
+  match parseCli toks ⟨⟨[], Gen.MO_RCMD_RANK_LIST.map String.toList, none, none, none, []⟩, []⟩ with
+  | none => "bad-op"
+  | some c =>
+    let hcfg : Hostlist.Cfg := { Hostlist.Cfg.probed with fixPushLoop := true, fix2Br := true }
+    let xenv : Opt.Exclude.Env := { files := [], rematch := fun _ _ => none, badre := fun _ => false }
+    -- the comma words of the -w options, in order, as wcoll_arg_process gets them
+    let wtexts := (c.evs.flatMap fun e => match e with | .w _ => Opt.Exclude.evWords e | .x _ => [])
+    let names (w : List Char) : Option (List (List Char)) :=
+      -- the word alone through the same path (get_host_rcmd_type strips the annotation exactly once)
+      match Opt.Exclude.cliFinal hcfg xenv [.w w] with
+      | .ok hs => some hs
+      | _ => none
+    match wtexts.mapM (fun w => (names w).map fun ns => (⟨w, ns, ns⟩ : Opt.Rcmd.Word)) with
+    | none => "fatal"
+    | some words =>
+      match Opt.Exclude.cliFinal hcfg xenv c.evs with
+      | .ok targets =>
+        match Opt.Rcmd.runChecked (some Gen.MO_LOGIN_NAME_MAX) false c.cfg words targets with
+        | .fatal => "fatal"
+        | .lines ls => showLines ls
+      | .nohosts => "fatal"
+      | .fatal _ => "fatal"
+      | _ => "outside"
 
 /-- the specification says nothing about malformed words or unknown module names (the property is
     about runs that take place): `nodomain` -/
@@ -116,9 +179,90 @@ def regSpec (toks : List String) : String :=
     let dfl := Opt.Rcmd.Spec.defaultType c.cfg
     let ls := Opt.Rcmd.Spec.expectedLines c.cfg c.words c.targets
     if !wordsOk then "nodomain"
+    else if Opt.Rcmd.userTooLong Gen.MO_LOGIN_NAME_MAX c.cfg c.words then "nodomain"
     else if (match dfl with | some d => !c.cfg.loaded.contains d | none => false) then "nodomain"
     else if ls.any (·.rtype.isNone) then "nodomain"
     else showLines ls
+
+/-! xrcmd's connection set-up (Exec/Xrcmd.lean) with a scripted world, same protocol as harness/xrcmd_harness.c -/
+section xr
+open PdshVerif.Exec.Xrcmd
+
+def showConn : Conn → String
+  | .ok => "o" | .addrInUse => "a" | .refused => "r" | .other => "x"
+
+def showEv : Ev → String
+  | .bind p => s!"b{p}"
+  | .connect p r => s!"c{p}:" ++ showConn r
+  | .close p => s!"x{p}"
+  | .sleep n => s!"s{n}"
+  | .listen p => s!"l{p}"
+  | .write bs => "w" ++ hx bs
+  | .accept src => s!"a{src}"
+  | .closeErr => "X"
+
+/-- the scripted privsep_rresvport of the harness: the first port from `start` downwards, not below
+    IPPORT_RESERVED/2, that is not in the busy list -/
+def resvOf (busy : List Nat) (start : Nat) : Option Nat :=
+  if start ≥ 2048 then none
+  else ((List.range (start + 1 - IPPORT_RESERVED / 2)).map (start - ·)).find? (fun p => !busy.contains p)
+
+def parseConns (s : String) : Option (List Conn) :=
+  if s = "-" then some []
+  else s.toList.mapM fun c =>
+    if c = 'o' then some Conn.ok else if c = 'a' then some .addrInUse else if c = 'r' then some .refused
+    else if c = 'x' then some .other else none
+
+def parseNats (s : String) : Option (List Nat) :=
+  if s = "-" then some [] else (s.splitOn ",").mapM String.toNat?
+
+def parseEv (t : String) : Option Ev :=
+  let rest := (t.drop 1).toString
+  match t.toList.head? with
+  | some 'b' => rest.toNat?.map .bind
+  | some 'c' =>
+    match rest.splitOn ":" with
+    | [p, r] => do
+      let p ← p.toNat?
+      let r ← (if r = "o" then some Conn.ok else if r = "a" then some .addrInUse else if r = "r" then some .refused
+               else if r = "x" then some .other else none)
+      pure (.connect p r)
+    | _ => none
+  | some 'x' => rest.toNat?.map .close
+  | some 's' => rest.toNat?.map .sleep
+  | some 'l' => rest.toNat?.map .listen
+  | some 'w' => (Hex.decodeToChars rest).map .write
+  | some 'a' => rest.toNat?.map .accept
+  | some 'X' => if rest = "" then some .closeErr else none
+  | _ => none
+
+/-- xr ERRCH LUSER RUSER CMD BUSY CONNS SLEEPS POLL ACC REPLY -/
+def xrModel : List String → String
+  | [e, l, r, c, busy, conns, sl, po, acc, reply] =>
+    match Hex.decodeToChars l, Hex.decodeToChars r, Hex.decodeToChars c, parseNats busy, parseConns conns with
+    | some l, some r, some c, some busy, some conns =>
+      let acc : Option (Option Nat) := if acc = "~" then some none else acc.toNat?.map some
+      let reply : Option (Option (List Char)) := if reply = "~" then some none else (Hex.decodeToChars reply).map some
+      match acc, reply with
+      | some acc, some reply =>
+        -- a script that runs out answers EHOSTUNREACH, like the harness
+        let w : World := ⟨resvOf busy, conns ++ [.other], sl = "1", po = "1", acc, reply⟩
+        let res := xrcmd w (e = "1") l r c
+        " ".intercalate ((if res.ok then "ok" else "fail") :: (mergeWrites res.evs).map showEv)
+      | _, _ => "bad-op"
+    | _, _, _, _, _ => "bad-op"
+  | _ => "bad-op"
+
+/-- xrobs ERRCH LUSER RUSER CMD ok|fail EVENT* : the observation judged by Exec/XrcmdSpec.lean -/
+def xrSpec : List String → String
+  | e :: l :: r :: c :: res :: evs =>
+    match Hex.decodeToChars l, Hex.decodeToChars r, Hex.decodeToChars c,
+          (evs.filter (fun t => !t.startsWith "leak")).mapM parseEv with
+    | some l, some r, some c, some evs =>
+      if Spec.meets (e = "1") l r c (res = "ok") evs then "ok" else "viol"
+    | _, _, _, _ => "bad-op"
+  | _ => "bad-op"
+end xr
 
 def stepModel (v : Variant) (re : Bool) (sshEsc : Bool) (line : String) : String :=
   match Driver.words line with
@@ -172,6 +316,8 @@ def stepModel (v : Variant) (re : Bool) (sshEsc : Bool) (line : String) : String
       | none => "ub"
     | _, _, _, _, _, _, _, _, _ => "bad-op"
   | "reg" :: rest => regModel re rest
+  | "regcli" :: rest => regCli rest
+  | "xr" :: rest => xrModel rest
   | _ => "bad-op"
 
 def stepSpec (line : String) : String :=
@@ -196,6 +342,7 @@ def stepSpec (line : String) : String :=
       | none => "malformed"
     | none => "bad-op"
   | "reg" :: rest => regSpec rest
+  | "xrobs" :: rest => xrSpec rest
   | _ => "bad-op"
 
 def main (args : List String) : IO UInt32 := do
